@@ -13,6 +13,7 @@ import Cerberus.Model.Api
 import Cerberus.Model.Schema
 import Cerberus.Model.Cache
 import Cerberus.Model.Heap
+import Cerberus.Model.Shared
 import Cerberus.Extracted
 import Cerberus.Model.RefTables
 open Lean Cerberus Cerberus.Codec
@@ -444,6 +445,94 @@ def portAlias (j : Json) : Except String Json := do
   | .error .fuel => pure (Json.str "fuel")
   | .error (.oracle w) => pure (Json.mkObj [("need", Json.str w)])
 
+/-! port `shared`: the thread model of Model/Shared.lean on a table world over numbers -/
+def natsOf (j : Json) : Except String (List Nat) := do
+  let a ← j.getArr?
+  a.toList.mapM (fun x => x.getNat?)
+
+def rowsOf (j : Json) (field : String) : Except String (List (List Nat)) := do
+  match (j.getObjVal? field).toOption with
+  | none => pure []
+  | some v => do
+    let a ← v.getArr?
+    a.toList.mapM natsOf
+
+def lookup1 (rows : List (List Nat)) (s : Nat) : Option Nat :=
+  (rows.find? (fun r => r.head? == some s)).bind (fun r => r[1]?)
+
+def lookup2 (rows : List (List Nat)) (s d : Nat) : Option (List Nat) :=
+  (rows.find? (fun r => r.head? == some s && r[1]? == some d)).map (fun r => r.drop 2)
+
+def hopOf (r : List Nat) : Except String (Shared.HOp Nat) :=
+  match r with
+  | [0, o] => pure (.construct o)
+  | [1, i, d] => pure (.call i d)
+  | _ => throw "bad op"
+
+def outJson : Shared.Out Nat Nat → Json
+  | .accepted s => Json.arr #[Json.str "acc", toJson s]
+  | .rejected => Json.arr #[Json.str "rej"]
+  | .called r fl => Json.arr #[Json.str "call", toJson r, Json.arr (fl.map Json.bool).toArray]
+  | .noInstance => Json.arr #[Json.str "noinst"]
+
+def portShared (j : Json) : Except String Json := do
+  let ex ← rowsOf j "expand"
+  let ky ← rowsOf j "key"
+  let va ← rowsOf j "valid"
+  let ch ← rowsOf j "children"
+  let sb ← rowsOf j "subs"
+  let pr ← rowsOf j "process"
+  let objs ← natsOf (← j.getObjVal? "objs")
+  let progsJ ← (← j.getObjVal? "progs").getArr?
+  let progs ← progsJ.toList.mapM (fun p => do
+    let ops ← p.getArr?
+    ops.toList.mapM (fun o => do hopOf (← natsOf o)))
+  let sched ← natsOf (← j.getObjVal? "sched")
+  let opgran := ((j.getObjVal? "opgran").toOption.bind (·.getBool?.toOption)).getD false
+  let cache ← natsOf (← j.getObjVal? "cache")
+  let clsN ← (← j.getObjVal? "cls").getNat?
+  -- a missing table entry never agrees silently: distinct key, invalid, no children
+  let w : Shared.World Nat Nat Nat := {
+    expand := fun s => (lookup1 ex s).getD s
+    key := fun s => (lookup1 ky s).getD (s + 1000000)
+    valid := fun s => (lookup1 va s).getD 0 == 1
+    subs := fun s => ((sb.find? (fun r => r.head? == some s)).map (fun r => r.drop 1)).getD []
+    children := fun s d => (lookup2 ch s d).getD []
+    process := fun s d => ((lookup2 pr s d).bind (·.head?)).getD 999999 }
+  let y0 : Shared.Sys Nat Nat Nat :=
+    Shared.initial (fun o => objs.getD o 0) cache (if clsN == 0 then .absent else .complete) (fun t => progs.getD t [])
+  -- step by step, logging the cache traffic
+  let micro := fun (acc : Shared.Sys Nat Nat Nat × List Json) (i : Nat) =>
+      let y := acc.1
+      let y' := y.step w i
+      let ev1 := match (y.ts i).phase, (y'.ts i).phase with
+        | .lookup _ s, .check _ _ hit => [Json.arr #[Json.str "lookup", toJson i, toJson (w.key s), Json.bool hit]]
+        | _, _ => []
+      let ev2 := match (y.ts i).phase with
+        | .add _ _ _ _ => if y'.σ.cache.length > y.σ.cache.length
+            then [Json.arr #[Json.str "add", toJson i, toJson (y'.σ.cache.headD 0)]] else []
+        | _ => []
+      (y', acc.2 ++ ev1 ++ ev2)
+  -- `opgran`: a schedule entry runs the thread until it is idle again (one whole construct / call)
+  let isIdle := fun (y : Shared.Sys Nat Nat Nat) (i : Nat) => match (y.ts i).phase with | .idle => true | _ => false
+  let rec runOp (fuel : Nat) (acc : Shared.Sys Nat Nat Nat × List Json) (i : Nat) : Shared.Sys Nat Nat Nat × List Json :=
+    match fuel with
+    | 0 => acc
+    | f + 1 =>
+      let acc' := micro acc i
+      if isIdle acc'.1 i then acc' else runOp f acc' i
+  let (y, events) := sched.foldl (fun acc i =>
+      if opgran then
+        let r := runOp 100000 acc i
+        (r.1, r.2 ++ [Json.arr #[Json.str "cache", Json.arr (r.1.σ.cache.map (fun k => toJson k)).toArray]])
+      else micro acc i) (y0, [])
+  let n := progs.length
+  pure (Json.mkObj [
+    ("outs", Json.arr ((List.range n).map (fun t => Json.arr (((y.ts t).outs).map outJson).toArray)).toArray),
+    ("terminated", Json.arr ((List.range n).map (fun t => Json.bool (decide (y.ts t).terminated))).toArray),
+    ("objs", Json.arr ((List.range objs.length).map (fun o => toJson (y.σ.objs o))).toArray),
+    ("events", Json.arr events.toArray)])
+
 def handle (line : String) : Json :=
   match Json.parse line with
   | .error e => Json.mkObj [("error", Json.str s!"parse: {e}")]
@@ -463,6 +552,7 @@ def handle (line : String) : Json :=
       | "entries" => portEntries j
       | "hkey" => portHkey j
       | "alias" => portAlias j
+      | "shared" => portShared j
       | "ping" => pure (Json.str "pong")
       | _ => throw s!"bad-op {port}"
     match r with
